@@ -98,7 +98,7 @@ PROPS = {
     "C09": [("Proto.v", r"."), ("Misc.v", r"^C09_b_"), ("ProtoEdit.v", r"^C09_edit_")],
     "C10": [("C10.v", r"."), ("Kahan.v", r"."), ("Kahan2.v", r"."), ("Misc.v", r"^C10_f_"), ("SketchSum.v", r"^C10_from_data")],
     "C11": [("Rank.v", r"^C11_"), ("Instance.v", r"^I_C11_"), ("Sketch2.v", r"^C11_"), ("Sketch3.v", r"^C11_|^I_C11_")],
-    "C12": [("Sketch.v", r"^C12_"), ("Instance.v", r"^I_C12_"), ("Refine.v", r"Rf_plain_count|Rf_plain_is_empty|Rf_plain_max|Rf_plain_min|Rf_sk_foreach"), ("Sketch2.v", r"^C12_|^I_C12_"), ("Sketch3.v", r"^C12_exec"), ("SketchSum.v", r"^C12_f_"), ("SketchBatch.v", r"^C12_batch"), ("SketchBatchExec.v", r"^C12_exec_"), ("SketchBatchExec64.v", r"^C12_exec64_")],
+    "C12": [("Sketch.v", r"^C12_"), ("Instance.v", r"^I_C12_"), ("Refine.v", r"Rf_plain_count|Rf_plain_is_empty|Rf_plain_max|Rf_plain_min|Rf_sk_foreach"), ("Sketch2.v", r"^C12_|^I_C12_"), ("Sketch3.v", r"^C12_exec"), ("SketchSum.v", r"^C12_f_"), ("SketchBatch.v", r"^C12_batch"), ("SketchBatchExec.v", r"^C12_exec_"), ("SketchBatchExec64.v", r"^C12_exec64_"), ("SketchBatchHist.v", r"^C12_hist_")],
     "C13": [("Sketch.v", r"^C13_"), ("Refine.v", r"too_high|too_low|no_panic|Rf_sk_add"), ("Bridge.v", r"Bridge_with_")],
     "C14": [("C04pag.v", r"reads_pure|foreach|compact|key_at_rank"), ("C04pagloops.v", r"."), ("C04dense.v", r"foreach|key_at_rank|total|min_index|max_index"),
             ("C20.v", r"queries_transparent|inv_lower|inv_upper"), ("Refine.v", r"reads_pure|quantile_pure|copy")],
